@@ -113,18 +113,25 @@ def mutate(m, other, x, op):
   return (m.p.value if hasattr(m, 'p') else 0) * 2        # read only
 
 
-def user_fn(prog):
+def user_fn(prog, bare=False):
   def f(m, other, x):
     y = x
     for op in prog:
       y = y + mutate(m, other, x, op)
     return y
-  return f
+  if not bare:
+    return f
+
+  def g(v, m, other, x):
+    # a bare Variable handed in as the first argument (and aliased by m.p)
+    v.value = v.value + 1
+    return f(m, other, x) + v.value
+  return g
 
 
 def _build(edge, second, v0, v1, v2):
   edges = [] if edge is None else [edge]
-  o = GR.build(edges, v0, v1, v2)
+  o = GR.build(edges, v0, v1, v2, table=True)
   other = pick([o['M1'], o['M2']], second)
   if second == 1:
     o['M2'].b = nnx.BatchStat(v2 + 5)
@@ -136,7 +143,8 @@ def _canon_pair(m, other):
   return c
 
 
-def jit_remat_like_eager(t, ne, s0, d0, h0, second, v0, v1, v2, x, n, o0, o1, calls):
+def jit_remat_like_eager(t, ne, s0, d0, h0, second, v0, v1, v2, x, n, o0, o1, calls,
+                         bare=0):
   """nnx.jit / nnx.remat: after the call the caller's own objects are in the state
   the eager call leaves on an identical graph (values, added / removed / re-bound
   attributes, new sub-objects, aliasing); same return value; repeated calls."""
@@ -153,20 +161,25 @@ def jit_remat_like_eager(t, ne, s0, d0, h0, second, v0, v1, v2, x, n, o0, o1, ca
   for o in (o0, o1)[n:]:
     if o != 0:
       raise Reject()
-  f = user_fn(prog)
+  f = user_fn(prog, bool(bare))
   oa, ma, othera = _build(edge, second, v0, v1, v2)     # transformed run
   ob, mb, otherb = _build(edge, second, v0, v1, v2)     # eager reference
+  # bare == 1: the module's own Param is also passed first, as a bare Variable;
+  # bare == 2: a Variable that belongs to no module
+  fresh_a, fresh_b = nnx.Param(v1 + 40), nnx.Param(v1 + 40)
+  pre_a = (oa['P0'],) if bare == 1 else ((fresh_a,) if bare == 2 else ())
+  pre_b = (ob['P0'],) if bare == 1 else ((fresh_b,) if bare == 2 else ())
   ids_before = {k: id(v) for k, v in oa.items() if k in ('M0', 'M1', 'M2')}
   with TEnv():
     tf = nnx.jit(f) if t == 0 else nnx.remat(f)
     for i in range(calls):
       try:
-        ya = tf(ma, othera, x)
+        ya = tf(*pre_a, ma, othera, x)
         erra = None
       except (AttributeError, ValueError) as e:
         ya, erra = None, type(e).__name__
       try:
-        yb = f(mb, otherb, x)
+        yb = f(*pre_b, mb, otherb, x)
         errb = None
       except (AttributeError, ValueError) as e:
         yb, errb = None, type(e).__name__
@@ -177,6 +190,8 @@ def jit_remat_like_eager(t, ne, s0, d0, h0, second, v0, v1, v2, x, n, o0, o1, ca
       if ya != yb:
         return False
       if _canon_pair(ma, othera) != _canon_pair(mb, otherb):
+        return False
+      if bare == 2 and fresh_a.value != fresh_b.value:
         return False
   # it is the caller's own objects that carry the changes
   return ids_before == {k: id(v) for k, v in oa.items() if k in ('M0', 'M1', 'M2')}
@@ -286,7 +301,7 @@ def obligations(tier):
       Ob('jit_remat_like_eager', jit_remat_like_eager,
          dict(t=I(0, 1), ne=I(0, 1), s0=I(0, 2), d0=I(0, 6), h0=B(),
               second=I(0, 1), v0=v, v1=v, v2=v, x=v, n=I(1, 2), o0=op, o1=op,
-              calls=I(1, 1 if quick else 2)),
+              calls=I(1, 1 if quick else 2), bare=I(0, 2)),
          split=('t', 'ne', 'n', 'o0', 'second'), timeout=900, funcs=F,
          per_path_timeout=60.0,
          bounds='jit, remat; base graph + <=1 extra edge; second argument = the '
